@@ -21,7 +21,7 @@ From NV Require Sinks.Sink Bgzf.Vpos Bgzf.ReaderOps Bgzf.FlatRef Bgzf.WriterTell
 Import ListNotations.
 Open Scope N_scope.
 
-Definition pinned_writer_repaired : bool := false.
+Definition pinned_writer_repaired : bool := true.
 
 Definition e_invalid_input : N := 2.
 
